@@ -120,11 +120,17 @@ package cmd
 //@ func regattapb.RegisterClusterServer
 //@   assumed
 //@   modifies nothing
+// the auth interceptor asks the registered service's AuthFuncOverride: for every service type that is
+// registered it must be the method that consults the configured check (a wrapper type must not shadow it)
 //@ func regattapb.RegisterTablesServer
 //@   assumed
+//@   typefact method *regattaserver.TablesServer.AuthFuncOverride regattaserver.(*TablesServer).AuthFuncOverride
+//@   typefact method *regattaserver.ReadonlyTablesServer.AuthFuncOverride regattaserver.(*TablesServer).AuthFuncOverride
 //@   modifies nothing
 //@ func regattapb.RegisterMaintenanceServer
 //@   assumed
+//@   typefact method *regattaserver.BackupServer.AuthFuncOverride regattaserver.(*BackupServer).AuthFuncOverride
+//@   typefact method *regattaserver.ResetServer.AuthFuncOverride regattaserver.(*ResetServer).AuthFuncOverride
 //@   modifies nothing
 //@ func regattapb.NewKVClient
 //@   assumed
